@@ -911,6 +911,9 @@ def rule_rx_edit(prog: Program, report: Report, pid: str) -> None:
                     verdict = "the field / element it stored is no longer stored"
                 else:
                     live = [t_.id for t_ in flat if any(isinstance(x, ast.Name) and x.id == t_.id and isinstance(x.ctx, ast.Load) for x in ast.walk(fn.node)) or any(isinstance(x, (ast.Nonlocal, ast.Global)) and t_.id in x.names for x in ast.walk(fn.node))]
+                    uses = (rv.get("uses") or {}).get(text)
+                    if live and uses is not None and min(uses) == 0:
+                        live = []  # an occurrence of this text stored a value nothing read (a dead initialisation)
                     if live:
                         verdict = f"`{live[0]}` is still read but no longer updated there"
             elif isinstance(old, (ast.Return, ast.Raise, ast.Break, ast.Continue)):
